@@ -12,11 +12,15 @@ def tasks(tier):
 
 
 TRUSTED_BASE = TRUSTED_CORE
-ASSUMPTIONS = []
-NOT_COVERED = []
-LEVEL_TEXT = "wip"
+ASSUMPTIONS = [
+    "the worklist closure of ensure_no_dataflow_cycles / cache_triggering_ancestors (nested loops over mutable dicts of dicts with a dirty set) is "
+    "outside the deductive subset: it is run natively on every scenario of a stated bounded family and compared with the property's own rule",
+    "delays outside K_mixed (known findings F11 / F6)",
+]
+NOT_COVERED = ['exactness of the cycle check for scenarios beyond the bound of the stand-in (more simulators / connections, deeper groups): not proved', 'scenarios with two paths whose accumulated delays are incomparable (K_mixed): known finding F6, the closure dies with AssertionError']
+LEVEL_TEXT = "Building blocks proved for all inputs: update_min (keeps the minimum, None iff no improvement), delay composition (associative, monotone) and order (transitive, exactly one of <, =, >) on mosaik/tiered_time.py outside K_mixed, connect_one's per-pair minimum. The closure and the accept / reject decision themselves: BOUNDED stand-in -- every set of up to 3 (thorough: 4) connections over four group shapes, against the property's rule (unresolved cycle iff rejected, named cycle is real)."
 DESIGN_REF = "DESIGN.md section 8 (C06)"
-LEVEL_NOTE = "wip"
+LEVEL_NOTE = 'Mixed: lemmas and function contracts are proofs; the exactness statement itself is bounded (coverage.bounded). Known finding F6; fixed through this check: F13 (d15a998), F1 (fe85a87).'
 TECHNIQUE = "contract-based deductive verification of the building blocks (update_min, delay composition and order, connect_one's minimum); the worklist closure itself by a bounded stand-in"
-CLAIMED = False
-NA_REASON = "check under construction in this round"
+CLAIMED = True
+NA_REASON = ""
